@@ -219,6 +219,7 @@ struct AnyEngine
                 boost::variant2::visit(Extents{&ex, &aa}, *img[a]); boost::variant2::visit(Extents{&ex, &ab}, *img[b]);
                 if (aa != ab) return; // swapping unequal non-propagating allocators: precondition
             }
+            thr_t = a; thr_s = b; // a swap that throws half way leaves both in a valid but unspecified state
             using std::swap;
             swap(*img[a], *img[b]);
             if (mod[a].type == mod[b].type) std::swap(mod[a], mod[b]);
@@ -262,7 +263,7 @@ struct AnyEngine
             ++out.ops_threw;
             // "the target still holds a valid image": re-adopt (type and dims read back), contents unspecified
             if (thr_t >= 0 && img[thr_t]) normalise(mod[thr_t], *img[thr_t], 0xFA1u + (uint64_t)idx);
-            if (thr_s >= 0 && thr_s != thr_t && img[thr_s]) adopt(mod[thr_s], *img[thr_s]);
+            if (thr_s >= 0 && thr_s != thr_t && img[thr_s]) normalise(mod[thr_s], *img[thr_s], 0xFA2u + (uint64_t)idx);
         }
         out.counts.push_back(oc);
         ++out.ops_executed;
